@@ -43,12 +43,15 @@ Section Alg.
 Variable nodes : list (nat * nkind).
 Variable w : nat.
 Variable reset : bool.
+(* states held by the nodes when fit() is called (zero for a fresh model; after an earlier run / fit: whatever they
+   were left at).  Model.fit with default flags starts the first sequence from them; reset=True ignores them. *)
+Variable init : list (nat * qv).
 Definition kind_of (v : nat) : nkind := match lookup nodes v with Some k => k | None => NFwd KId 0 end.
 Definition din_of (d : qd) : nat := length (hd [] (hd [] d)).
 
 Definition q_run (v : nat) (ins : list qd) : qd :=
   match kind_of v with
-  | NFwd k od => run_data k reset (vzeros od) (vzeros od, []) (hcats ins)
+  | NFwd k od => run_data k reset (vzeros od) (match lookup init v with Some s => s | None => vzeros od end, []) (hcats ins)
   | NRidge _ _ _ => []
   end.
 Definition q_fit (v : nat) (ins : list qd) (y : qd) : option (qm * qv) :=
@@ -94,15 +97,15 @@ Definition param_close (p : option (option (qm * qv))) (W : qm) (b : qv) : bool 
    3. fit_with_staging (Model.fit as written) with that staging reproduces every readout;
    4. when valid: so does the explicit node-by-node procedure. *)
 Definition chk_fit (nodes : list (nat * nkind)) (g : graph) (X0 Y0 : list (nat * qd)) (w : nat) (reset : bool)
-           (obs_stg : list stage) (expect_valid : bool) (obs : list (nat * (qm * qv))) : bool :=
+           (init : list (nat * qv)) (obs_stg : list stage) (expect_valid : bool) (obs : list (nat * (qm * qv))) : bool :=
   match get_offline_subgraphs g with Some stg => stages_eqb stg obs_stg | None => false end
   && Bool.eqb (valid_stagingb g (map fst X0) (map fst Y0) obs_stg) expect_valid
-  && match fit_with_staging qd (option (qm * qv)) (q_run nodes reset) (q_fit nodes w) (q_pred nodes) g X0 Y0 obs_stg with
+  && match fit_with_staging qd (option (qm * qv)) (q_run nodes reset init) (q_fit nodes w) (q_pred nodes) g X0 Y0 obs_stg with
      | Some ps => forallb (fun o => param_close (lookup ps (fst o)) (fst (snd o)) (snd (snd o))) obs
      | None => false
      end
   && (negb expect_valid ||
-      let ex := explicit_fit qd (option (qm * qv)) (q_run nodes reset) (q_fit nodes w) (q_pred nodes) g X0 Y0 in
+      let ex := explicit_fit qd (option (qm * qv)) (q_run nodes reset init) (q_fit nodes w) (q_pred nodes) g X0 Y0 in
       forallb (fun o => param_close (lookup ex (fst o)) (fst (snd o)) (snd (snd o))) obs).
 
 (* Model.fit raised on the real model: the model of Model.fit fails too (and the staging is not valid) *)
